@@ -8,6 +8,8 @@
 import json, os, shutil, subprocess, sys, tempfile
 
 ENV = dict(os.environ, GOFLAGS="-mod=mod", GOPROXY="off", GOPRIVATE="*")
+ROOT = os.path.dirname(os.path.dirname(os.path.abspath(__file__)))      # the /verif tree this script lives in (may be a snapshot)
+REPO = os.environ.get("VERIF_REPO", "/repo")                            # the repository the patch is applied to (may be a scratch worktree)
 
 def sh(cmd, cwd=None, timeout=900):
     p = subprocess.run(cmd, shell=True, cwd=cwd, env=ENV, capture_output=True, text=True, timeout=timeout)
@@ -64,26 +66,26 @@ def confirm(mutdir):
         shutil.rmtree(wt, ignore_errors=True)
 
 def run(mutdir, ids):
-    rc, out = sh("git -C /repo status --porcelain")
-    assert out.strip() == "", "/repo not clean: " + out
-    rc, out = sh("git -C /repo apply %s" % os.path.join(os.path.abspath(mutdir), "patch.diff"))
+    rc, out = sh("git -C %s status --porcelain" % REPO)
+    assert out.strip() == "", REPO + " not clean: " + out
+    rc, out = sh("git -C %s apply %s" % (REPO, os.path.join(os.path.abspath(mutdir), "patch.diff")))
     if rc != 0:
-        print("patch does not apply to /repo:", out)
+        print("patch does not apply to %s:" % REPO, out)
         return {}
     results = {}
     # evidence written while a mutant is applied must not replace the evidence of the unchanged tree
     bak = tempfile.mkdtemp(prefix="evbak-", dir="/var/tmp")
-    shutil.copytree("/verif/evidence", os.path.join(bak, "evidence"))
+    shutil.copytree(os.path.join(ROOT, "evidence"), os.path.join(bak, "evidence"))
     try:
         for i in ids:
-            rc, out = sh("./bin/check %s --tier quick" % i, cwd="/verif", timeout=3600)
+            rc, out = sh("./bin/check %s --tier quick" % i, cwd=ROOT, timeout=3600)
             viol = [l for l in out.splitlines() if l.startswith("VIOLATION")]
             why = [l for l in out.splitlines() if l.strip().startswith("key=")]
             results[i] = dict(rc=rc, violations=len(viol), why=why[:3], tail=out[-500:] if rc == 2 else "")
     finally:
-        sh("git -C /repo checkout -- . && git -C /repo clean -fdq")
-        shutil.rmtree("/verif/evidence", ignore_errors=True)
-        shutil.copytree(os.path.join(bak, "evidence"), "/verif/evidence")
+        sh("git -C %s checkout -- . && git -C %s clean -fdq" % (REPO, REPO))
+        shutil.rmtree(os.path.join(ROOT, "evidence"), ignore_errors=True)
+        shutil.copytree(os.path.join(bak, "evidence"), os.path.join(ROOT, "evidence"))
         shutil.rmtree(bak, ignore_errors=True)
     return results
 
